@@ -1,4 +1,4 @@
-// want: [6 20]
+// want: [620]
 package main
 
 import (
@@ -11,14 +11,17 @@ func inc(x int) int { return x + 1 }
 func dbl(x int) int { return x * 2 }
 func pick() (func(int) int, bool) { return dbl, true }
 
-func g() Iter[int] {
+func redeclared() int {
 	step := inc
 	run := func(x int) int { return step(x) }
-	Yield(run(5))
-	var ok bool
-	step, ok = pick()
+	a := run(5)
+	step, ok := pick()
 	_ = ok
-	Yield(run(10))
+	return a*100 + run(10)
+}
+
+func g() Iter[int] {
+	Yield(redeclared())
 	return nil
 }
 
